@@ -1,9 +1,365 @@
-"""E2: Verus on mechanically extracted text (placeholder until built)."""
+"""E2: Verus on mechanically extracted text.
+
+On every run the functions / match arms listed in contracts/verus/units.py are
+cut byte-for-byte out of /repo's working tree (lib/extract.py), a closed list of
+syntactic rewrites (R1-R8, DESIGN.md §2) is applied and recorded, contracts
+(requires / ensures / invariants / ghost hints) are spliced in, and the result is
+pasted after contracts/verus/shim.rs into ONE file that `verus` checks.  Every
+emitted fn is one named obligation."""
+import importlib.util
+import json
+import os
+import re
+import time
+
+import extract
+from core import FAIL, PASS, REPO, SCRATCH, UNDECIDED, VERIF, Lock, Obligation, Result, run, sha256_file
+
+E2DIR = os.path.join(SCRATCH, "e2")
+SHIM = os.path.join(VERIF, "contracts", "verus", "shim.rs")
+
+
+def _units():
+    p = os.path.join(VERIF, "contracts", "verus", "units.py")
+    spec = importlib.util.spec_from_file_location("verus_units", p)
+    m = importlib.util.module_from_spec(spec)
+    spec.loader.exec_module(m)
+    return m.UNITS
 
 
 def registry():
-    return []
+    obls = []
+    for u in _units():
+        obls.append(Obligation(u["id"], u["props"], "e2-verus-extract", u.get("level", "unbounded"),
+                               u.get("tier", "quick"), u.get("expect", "pass"),
+                               anchor=_anchor(u), desc=u.get("desc", ""), budget=u.get("budget", 120)))
+    return obls
+
+
+def _anchor(u):
+    if u["kind"] in ("lemma", "canary"):
+        return "contracts/verus (no repo code)"
+    a = f"{u['file']}::{u.get('impl_name', '')}::{u['fn']}"
+    if u["kind"] == "arm":
+        a += f" arm `{u['arm']}`"
+    if u.get("sub"):
+        a += f" [{u['sub']}]"
+    return a
+
+
+# ------------------------------------------------------------------ rewrites
+RW = [
+    # (id, regex, replacement, description)
+    ("R2", r"let \[(mut )?(\w+)\] = (get_\w+)\(([^;]*?)\)\?;", r"let \1\2 = \3_1(\4)?;", "slice pattern (1) -> arity-checked shim fn"),
+    ("R2", r"let \[(mut )?(\w+), (mut )?(\w+)\] = (get_\w+)\(([^;]*?)\)\?;", r"let (\1\2, \3\4) = \5_2(\6)?;", "slice pattern (2) -> arity-checked shim fn"),
+    ("R2", r"let \[(\w+), (\w+), (\w+)\] = (get_\w+)\(([^;]*?)\)\?;", r"let (\1, \2, \3) = \4_3(\5)?;", "slice pattern (3) -> arity-checked shim fn"),
+    ("R4", r"(?m)^\s*debug_assert(?:_eq|_ne)?!\([^;]*\);\n", "", "debug-only assertion dropped"),
+    ("R4", r"(?m)^\s*#\[(?:inline(?:\(always\))?|track_caller|allow\([^\]]*\)|must_use)\]\n", "", "attribute dropped"),
+    ("R4", r"(?m)^\s*///[^\n]*\n", "", "doc comment dropped"),
+    ("R3", r'format!\((?:[^()]|\((?:[^()]|\([^()]*\))*\))*\)', "verif_msg()", "error text dropped"),
+]
+
+
+def apply_rewrites(text, extra=()):
+    log = []
+    for rid, pat, rep, why in list(RW) + list(extra):
+        new, n = re.subn(pat, rep, text)
+        if n:
+            log.append({"rewrite": rid, "count": n, "what": why, "pattern": pat})
+            text = new
+    return text, log
+
+
+UNSUPPORTED = [
+    (r"let \[", "slice pattern not covered by R2"),
+    (r"\.iter\(\)|\.into_iter\(\)|\.drain\(|\.extend\(", "iterator adapter"),
+    (r"\|\s*\w+\s*\|", "closure"),
+]
+
+
+def check_supported(text, allow=()):
+    for pat, why in UNSUPPORTED:
+        if why in allow:
+            continue
+        if re.search(pat, text):
+            return why
+    return None
+
+
+# ------------------------------------------------------------------ generation
+class Gen:
+    def __init__(self):
+        self.blocks = {}   # target -> list of text
+        self.order = []
+        self.lines = []
+        self.unit_ranges = {}  # id -> (first_line, last_line)
+        self.report = []   # per unit extraction report
+        self.errors = {}   # id -> reason (anchor lost / unsupported)
+        self.sources = {}
+
+
+def _read(gen, rel):
+    p = os.path.join(REPO, rel)
+    if rel not in gen.sources:
+        gen.sources[rel] = {"file": rel, "sha256": sha256_file(p)}
+    return open(p).read()
+
+
+def _spec_clauses(u):
+    s = ""
+    if u.get("requires"):
+        s += "        requires\n" + "".join(f"            {c},\n" for c in u["requires"])
+    if u.get("ensures"):
+        s += "        ensures\n" + "".join(f"            {c},\n" for c in u["ensures"])
+    return s
+
+
+def _emit_unit(gen, u):
+    uid = u["id"]
+    kind = u["kind"]
+    rep = {"id": uid, "kind": kind, "rewrites": []}
+    try:
+        if kind in ("lemma", "canary"):
+            text = u["text"].rstrip() + "\n"
+            rep["source"] = "contracts/verus/units.py (no repo code)"
+        else:
+            src = _read(gen, u["file"])
+            s0, s1 = 0, len(src)
+            if u.get("impl"):
+                s0, s1 = extract.find_impl_block(src, u["impl"])
+            info = extract.find_fn(src, u["fn"], s0, s1)
+            if u.get("inner_fn"):
+                info = extract.find_fn(src, u["inner_fn"], info["body_start"], info["body_end"])
+            sig, body = extract.fn_parts(src, info)
+            rep["source"] = f"{u['file']}:{extract.line_of(src, info['fn_kw'])}-{extract.line_of(src, info['body_end'])}"
+            if kind == "fn":
+                raw = body
+                head = u.get("sig") or sig
+                tail = ""
+            elif kind == "arm":
+                abody, is_block, span = extract.find_arm(src, u["arm"], info["body_start"], info["body_end"])
+                if u.get("sub_if"):
+                    # the `if <cond> { … }` block inside the arm
+                    m = re.search(r"if\s+" + u["sub_if"] + r"\s*\{", abody)
+                    if not m:
+                        raise extract.AnchorLost(f"sub-block `if {u['sub_if']}` not found in arm")
+                    b = m.end() - 1
+                    e = extract.match_brace(abody, b)
+                    abody = abody[b + 1:e - 1]
+                rep["source"] = f"{u['file']}:{extract.line_of(src, span[0])}-{extract.line_of(src, span[1])} (arm of {u['fn']})"
+                raw = abody if is_block else "        " + abody.strip() + ";\n"
+                if not is_block and u.get("expr_arm_is_value"):
+                    raw = "        " + abody.strip() + "\n"
+                head = u["sig"]
+                tail = u.get("tail", "Ok(())")
+            else:
+                raise ValueError(kind)
+            rep["verbatim_sha256"] = __import__("hashlib").sha256(raw.encode()).hexdigest()
+            rep["verbatim_lines"] = raw.count("\n")
+            new, log = apply_rewrites(raw, u.get("rewrites", ()))
+            rep["rewrites"] = log
+            why = check_supported(new, u.get("allow", ()))
+            if why:
+                raise extract.AnchorLost(f"unsupported construct after rewrites: {why}")
+            # loop invariants (R7): splice `invariant … decreases …` before the body of loop #k
+            for k, inv in (u.get("loops") or {}).items():
+                loops = list(re.finditer(r"(?m)^(\s*)(for\s[^{]*|while\s[^{]*|loop\s*)\{", new))
+                if k >= len(loops):
+                    raise extract.AnchorLost(f"loop #{k} not found")
+                m = loops[k]
+                ins = m.group(1) + m.group(2).rstrip() + "\n" + "".join(m.group(1) + "    " + l + "\n" for l in inv) + m.group(1) + "{"
+                new = new[:m.start()] + ins + new[m.end():]
+            if u.get("ret"):
+                # name the return value: `-> T` => `-> (r: T)`
+                head = re.sub(r"->\s*(.+?)\s*$", lambda m: f"-> ({u['ret']}: {m.group(1)})", head.strip(), flags=re.S)
+            head = re.sub(r"\bpub\(crate\)\s+", "pub ", head)
+            head = re.sub(r"\bconst fn\b", "fn", head)
+            hint = ""
+            if u.get("hints"):
+                hint = "        proof {\n" + "".join(f"            {h}\n" for h in u["hints"]) + "        }\n"
+            pre_hint = ""
+            if u.get("pre_hints"):
+                pre_hint = "        proof {\n" + "".join(f"            {h}\n" for h in u["pre_hints"]) + "        }\n"
+            text = f"    {head.strip()}\n{_spec_clauses(u)}    {{\n{pre_hint}{new.rstrip()}\n"
+            if kind == "arm":
+                text += hint
+                if tail:
+                    text += f"        {tail}\n"
+            text += "    }\n"
+            if u.get("name"):
+                text = re.sub(r"\bfn\s+" + re.escape(info["name"]) + r"\b", "fn " + u["name"], text, count=1)
+        target = u.get("target", "")
+        gen.blocks.setdefault(target, []).append((uid, text))
+        if target not in gen.order:
+            gen.order.append(target)
+    except extract.AnchorLost as ex:
+        gen.errors[uid] = str(ex)
+        rep["error"] = str(ex)
+    gen.report.append(rep)
+
+
+def generate(units):
+    gen = Gen()
+    for u in units:
+        _emit_unit(gen, u)
+    out = ["use vstd::prelude::*;", "verus! {", ""]
+    out += open(SHIM).read().split("\n")
+    out.append("// ======================= extracted code under proof =======================")
+    for target in gen.order:
+        if target:
+            out.append(f"{target} {{")
+        for uid, text in gen.blocks[target]:
+            first = len(out) + 1
+            out.append(f"    // ---- obligation {uid}")
+            out += text.rstrip("\n").split("\n")
+            gen.unit_ranges[uid] = (first, len(out))
+        if target:
+            out.append("}")
+    out += ["", "} // verus!", "fn main() {}", ""]
+    gen.text = "\n".join(out)
+    return gen
+
+
+def assumed_contracts():
+    """List of external_body items of the shim (the assumption inventory)."""
+    t = open(SHIM).read()
+    res = []
+    for m in re.finditer(r"#\[verifier::external_body\]\s*\n\s*((?:pub )?fn\s+\w+[^\n]*)", t):
+        res.append(m.group(1).strip())
+    return res
 
 
 def run_obligations(obls, log):
-    return [], None, {}
+    units = {u["id"]: u for u in _units()}
+    allunits = list(units.values())
+    info = {"cmds": [], "extraction": None}
+    os.makedirs(E2DIR, exist_ok=True)
+    with Lock("e2"):
+        gen = generate(allunits)
+        path = os.path.join(E2DIR, f"gen-{os.getpid()}.rs")
+        with open(path, "w") as f:
+            f.write(gen.text)
+        keep = os.path.join(E2DIR, "gen-last.rs")
+        with open(keep, "w") as f:
+            f.write(gen.text)
+        cmd = ["verus", path, "--output-json", "--time", "--multiple-errors", "50", "--rlimit", "30"]
+        info["cmds"].append("verus <generated file> --output-json --time --multiple-errors 50 --rlimit 30")
+        log(f"[e2] verus on {len(allunits)} units ({len(gen.errors)} extraction problems)")
+        t0 = time.time()
+        rc, out, dt = run(cmd, cwd=E2DIR, timeout=1800)
+        try:
+            os.remove(path)
+        except OSError:
+            pass
+    info["extraction"] = {"units": gen.report, "rewrite_rules": [{"id": r[0], "pattern": r[1], "what": r[3]} for r in RW]}
+    info["assumed_contracts"] = assumed_contracts()
+    prep = type("P", (), {})()
+    prep.sources = list(gen.sources.values())
+    # split stdout JSON from stderr diagnostics (we merged them): JSON starts at first line that is '{'
+    jtxt = None
+    i = out.find("\n{\n")
+    if out.startswith("{"):
+        i = -1
+    if i >= -1:
+        depth = 0
+        start = i + 1 if i >= 0 else 0
+        for k in range(start, len(out)):
+            if out[k] == "{":
+                depth += 1
+            elif out[k] == "}":
+                depth -= 1
+                if depth == 0:
+                    jtxt = out[start:k + 1]
+                    break
+    data = None
+    if jtxt:
+        try:
+            data = json.loads(jtxt)
+        except Exception:
+            data = None
+    diag = out if jtxt is None else out.replace(jtxt, "")
+    results = []
+    if data is None:
+        for o in obls:
+            results.append(Result(o, UNDECIDED, detail="verus produced no JSON result", text=out[-3000:]))
+        return results, prep, info
+    vr = data.get("verification-results", {})
+    total_smt = data.get("times-ms", {}).get("total-verify", 0) / 1000.0
+    # collect error spans
+    errs = []  # (line, message)
+    cur = None
+    for l in diag.split("\n"):
+        m = re.match(r"^(error|warning)(?:\[\w+\])?: (.*)$", l)
+        if m:
+            cur = [m.group(1), m.group(2), None]
+            if m.group(1) == "error":
+                errs.append(cur)
+            continue
+        m = re.match(r"^\s*--> .*?:(\d+):\d+", l)
+        if m and cur is not None and cur[2] is None:
+            cur[2] = int(m.group(1))
+    fatal = None
+    if vr.get("encountered-vir-error") or ("verified" not in vr):
+        # the file did not get to verification: everything undecided, with the first error
+        first = next((e for e in errs if not e[1].startswith("aborting")), None)
+        fatal = f"verus front-end error: {first[1] if first else 'unknown'}" + (f" (generated line {first[2]})" if first and first[2] else "")
+    per_unit_err = {}
+    stray = []
+    for kind, msg, line in errs:
+        if msg.startswith("aborting due to"):
+            continue
+        hit = None
+        if line is not None:
+            for uid, (a, b) in gen.unit_ranges.items():
+                if a <= line <= b:
+                    hit = uid
+                    break
+        if hit:
+            per_unit_err.setdefault(hit, []).append(f"{msg} (generated line {line})")
+        else:
+            stray.append(f"{msg} (line {line})")
+    n_units = max(1, len(allunits))
+    for o in obls:
+        if o.id in gen.errors:
+            results.append(Result(o, UNDECIDED, detail="extraction: " + gen.errors[o.id]))
+            continue
+        if fatal:
+            mine = per_unit_err.get(o.id)
+            results.append(Result(o, UNDECIDED, detail=fatal + (" ; in this unit: " + mine[0] if mine else ""), text=diag[-3000:]))
+            continue
+        if stray:
+            results.append(Result(o, UNDECIDED, detail="verus error outside any unit: " + stray[0], text=diag[-3000:]))
+            continue
+        e = per_unit_err.get(o.id)
+        if e:
+            tool_limit = [x for x in e if "rlimit" in x or "resource limit" in x.lower() or "not supported" in x or "unsupported" in x.lower()]
+            if tool_limit and len(tool_limit) == len(e):
+                results.append(Result(o, UNDECIDED, total_smt / n_units, detail="verus: " + tool_limit[0], backend="verus/z3"))
+            else:
+                a, b = gen.unit_ranges[o.id]
+                results.append(Result(o, FAIL, total_smt / n_units, backend="verus/z3", failed_checks=e,
+                                      text="\n".join(gen.text.split("\n")[a - 1:b]) + "\n\n" + _diag_for(diag, a, b)))
+        else:
+            results.append(Result(o, PASS, total_smt / n_units, backend="verus/z3"))
+    info["verus_summary"] = vr
+    return results, prep, info
+
+
+def _diag_for(diag, a, b):
+    """the diagnostics whose primary span lies in [a,b]"""
+    chunks = re.split(r"\n(?=error|warning)", diag)
+    keep = []
+    for c in chunks:
+        m = re.search(r"--> .*?:(\d+):\d+", c)
+        if m and a <= int(m.group(1)) <= b:
+            keep.append(c)
+    return "\n".join(keep)[-6000:]
+
+
+if __name__ == "__main__":
+    import sys
+    g = generate(_units())
+    os.makedirs(E2DIR, exist_ok=True)
+    p = os.path.join(E2DIR, "gen-manual.rs")
+    open(p, "w").write(g.text)
+    print(p, "errors:", g.errors)
